@@ -68,7 +68,33 @@ def run(prog, rep, tier, repo):
             if len(rets) != 1:
                 rep.undecided('kernel-form', 'kernel-form:%s' % tagk, 'several return values')
                 continue
-            t = rets[0]
+            t = prog.inline(rets[0], only=lambda p_: p_.startswith(KS))          # the closed form may live in a straight-line helper of the kernel module
+            # a helper of the kernel module that builds a value from its arguments and then overwrites entries of it in place
+            patched = []
+            for z in list(subterms(t)):
+                if tag(z) == 'call' and z[1].startswith(KS) and z[1] in pdb.bodies and not prog.straight_line(prog.func(z[1])):
+                    h = prog.func(z[1])
+                    rv = h.return_values()
+                    if len(rv) != 1 or any(tag(q) in ('local', 'item') for q in subterms(rv[0])):
+                        continue
+                    consts = []
+                    for st_ in h.stores():
+                        tg = st_.target
+                        base = tg
+                        while tag(base) in ('index', 'field') or (tag(base) == 'call' and short(base[1]) in ('index_mut', 'deref_mut') and base[2]):
+                            base = base[1] if tag(base) in ('index', 'field') else base[2][0]
+                        if tag(tg) != 'local' and base == rv[0] and tag(st_.value) == 'const' and \
+                                any(tag(q) == 'arg' for q in subterms(rv[0])):
+                            consts.append(st_)
+                    if consts:
+                        rep.touch(z[1])
+                        patched.append((z, h, rv[0], consts))
+            if patched:
+                z, h, e_, consts = patched[0]
+                rep.viol('symmetry', 'symmetry:%s' % tagk, '%s builds %s from the two point sets and then overwrites entries of it with the constant %s at positions chosen '
+                         'by index (%s): those covariances no longer depend on the points they belong to' % (
+                             short(z[1]), show(e_)[:80], show(consts[0].value), show(consts[0].target)[-60:]), site_of(h.body))
+                continue
             if outty == 'f64':
                 dist = ('call', 'std::f64::<impl f64>::powi', (('bin', 'Sub', x, y, 'f64'), ('const', 'i32', 2)), None)
                 dist2 = ('call', 'std::f64::<impl f64>::powi', (('bin', 'Sub', y, x, 'f64'), ('const', 'i32', 2)), None)
@@ -133,7 +159,10 @@ def run(prog, rep, tier, repo):
                 key = 'symmetry:%s' % tagk
                 d = distance_matrix(t, x, y)
                 if d is None:
-                    rep.viol('symmetry', key, 'the matrix form is not a function of |x|^2 (column) + |y|^2 (row) - 2 x.y^T: %s' % show(t)[:200], site_of(b))
+                    why_ = 'the squared-distance matrix |x|^2 (column) + |y|^2 (row) - 2 x.y^T is not found in %s' % show(t)[:160]
+                    rep.undecided('symmetry', key, why_, site_of(b), proof=False)
+                    rep.undecided('shape', 'shape:%s' % tagk, why_, site_of(b), proof=False)
+                    rep.undecided('sibling', 'sibling:%s' % tagk, why_, site_of(b), proof=False)
                     continue
                 dterm, shape_ok, why = d
                 D = ('arg', 99, 'r')
@@ -253,4 +282,28 @@ def distance_matrix(t, x, y):
                     why = '' if shape_ok else 'the squared norms are reshaped as %s / %s instead of a column (-1,1) for x and a row (1,-1) for y: the result is not n_x x n_y' % (
                         [show(v) for v in p[2][1:]], [show(v) for v in q[2][1:]])
                     return z, shape_ok, why
+    # difference form: (X - Y)^2 elementwise with X = x as a column (-1,1) and Y = y as a row (1,-1) (broadcast to n_x x n_y)
+    for z in subterms(t):
+        if tag(z) == 'call' and short(z[1]) == 'powi' and len(z[2]) == 2 and tag(z[2][1]) == 'const' and z[2][1][2] == 2 and \
+                tag(z[2][0]) == 'call' and 'std::ops::Sub' in z[2][0][1] and len(z[2][0][2]) == 2:
+            a, b = z[2][0][2]
+
+            def rs(v):
+                # (operand, rows, cols) through a chain of reshapes: the outermost reshape decides
+                if tag(v) == 'call' and short(v[1]) == 'reshape' and len(v[2]) == 3 and tag(v[2][1]) == 'const' and tag(v[2][2]) == 'const':
+                    inner = v[2][0]
+                    while tag(inner) == 'call' and short(inner[1]) == 'reshape' and inner[2]:
+                        inner = inner[2][0]
+                    return inner, v[2][1][2], v[2][2][2]
+                return None
+            ra, rb = rs(a), rs(b)
+            if ra is None or rb is None:
+                continue
+            if {ra[0], rb[0]} != {x, y}:
+                continue
+            rx, ry = (ra, rb) if ra[0] == x else (rb, ra)
+            shape_ok = (rx[1], rx[2]) == (-1, 1) and (ry[1], ry[2]) == (1, -1)
+            why = '' if shape_ok else 'x is laid out as (%d,%d) and y as (%d,%d) before the broadcast difference: rows then follow %s and columns %s, the result is not n_x x n_y' % (
+                rx[1], rx[2], ry[1], ry[2], 'y' if (ry[1], ry[2]) == (-1, 1) else '?', 'x' if (rx[1], rx[2]) == (1, -1) else '?')
+            return z, shape_ok, why
     return None
